@@ -2037,7 +2037,8 @@ class ReferenceManager:
         if refs is not None:        # None in case prev_ref is derived
             if prev_ref in refs:
                 refs.remove(prev_ref)
-            if not refs:    # ref is empty
+            if not refs and value is not prev_val:    # ref is empty
+                # (the spec is kept when the same value is assigned again)
                 del self._valid_to_refs[prev_valid]
                 spec = self._manager.get_spec_from_value(self._model.interface, prev_val)
                 if spec:
